@@ -2,7 +2,7 @@
 hdl21 ProtoBuf Import 
 """
 from types import SimpleNamespace
-from typing import Union, Any, Dict, List, Optional
+from typing import Union, Any, Dict, List, Optional, get_args
 
 # Local imports
 # Proto-definitions
@@ -171,7 +171,8 @@ class ProtoImporter:
                 target = import_vlsir_primitive(ref.external)
                 remapped_params = import_primitive_params(target, params)
                 literal_names = import_primitive_params(target, literal_valued(pinst.parameters))
-                params = target.Params(**keep_literals(target, remapped_params, literal_names))
+                params = keep_literals(target, remapped_params, literal_names)
+                params = target.Params(**absent_is_none(target, params))
 
             elif ref.external.domain in (
                 "hdl21.primitives",
@@ -179,7 +180,8 @@ class ProtoImporter:
             ):
                 # Retrieve the Primitive from `hdl21.primitives`, and convert its parameters
                 target = import_hdl21_primitive(ref.external)
-                params = target.Params(**keep_literals(target, params, literal_valued(pinst.parameters)))
+                params = keep_literals(target, params, literal_valued(pinst.parameters))
+                params = target.Params(**absent_is_none(target, params))
 
             else:  # Externally-defined `ExternalModule`
                 # These must be declared in our `Package` being imported. Look up its header-info from `ext_modules`.
@@ -282,6 +284,18 @@ def keep_literals(prim: Primitive, params: Dict[str, Any], literals: Dict[str, A
         name: Literal(text=val) if (literals.get(name) and name in scalar_fields and isinstance(val, str)) else val
         for name, val in params.items()
     }
+
+
+def absent_is_none(prim: Primitive, params: Dict[str, Any]) -> Dict[str, Any]:
+    """The exporter leaves out exactly the parameters whose value is `None`.
+    A parameter which the instance does not give, and which may be `None`, hence was `None` -
+    also where the primitive's default is something else (`Vdc(dc=None)`: the default is `dc=0`)."""
+    absent = {
+        name: None
+        for name, param in prim.Params.__params__.items()
+        if name not in params and type(None) in get_args(param.dtype)
+    }
+    return {**params, **absent}
 
 
 def import_parameters(pparams: List[vlsir.Param]) -> Dict[str, Any]:
